@@ -39,7 +39,7 @@ RULE = ('programs of 1..7 (quick) / 1..10 statements from 36 statement kinds (si
         'directive / comment) with and without a final expression+want. Compared: model `parse` pieces vs DoctestParser.parse (exec_lines, '
         'want_lines, orig_lines, line_offset, compile_mode, directives); real run vs plain exec of the de-prompted program (TRACE, '
         'concatenated and per-part logged_stdout, final bindings via clear()-snapshot dict); CaptureStdout vs model on ALL event sequences '
-        '<= 6 (quick) / 8 and random ones; two doctests run nested/alternately. non-trivial = more than one part; distinct = distinct docstring')
+        '<= 6 (quick) / 8 and random ones; two doctests run nested/alternately. Every doctest is run at a verbosity in {0,1,2,3} (from 2 on — the plugin and CLI defaults — the output is shown while captured); doctests WITHOUT any want at all four; every third doctest is run three times on the SAME DocTest object: each run must behave as the first and as the plain program. non-trivial = more than one part; distinct = distinct docstring')
 ASSUMPTIONS = ['exec/eval of a compiled part behave as CPython does; a block of statements executes like the statements one by one (validated here, not proved)',
                "CPython's ast.parse facts (statement start lines, last-is-expression) are taken from CPython, not from xdoctest",
                'the labeller and grouping passes of the parser are compared here but their theorems belong to C13']
@@ -173,15 +173,15 @@ def replay(ctx, failing):
     t2, line_of, stmt_first = prog.render()
     print('docstring:\n' + text)
     print('de-prompted program:\n' + prog.source)
-    ex = E.parse_example(text)
-    if ex is None:
-        print('the docstring does not yield exactly one doctest')
-        return True
+    schedule = [tuple(x) for x in inp.get('runs') or [(0, True)]]
+    print('runs (verbosity, fresh DocTest object): %r' % (schedule,))
     import io
     import contextlib
     with contextlib.redirect_stdout(io.StringIO()):
-        run = E.run_example(ex)
-    why = E.expectations(prog, text, line_of, stmt_first, ex, run)
+        why, run, ex = E.check_runs(prog, text, line_of, stmt_first, schedule)
+    if ex is None:
+        print('the docstring does not yield exactly one doctest')
+        return True
     print('plain program : TRACE/stdout/bindings = %r' % (P.reference_prog(prog)[:3],))
     print('real doctest  : TRACE=%r logged=%r bindings=%r summary=%r' % (run['T'], run['logged'], run['ns'], run['summary']))
     for w in why:
